@@ -212,10 +212,12 @@ static int URI_FUNC(RemoveBaseUriImpl)(URI_TYPE(Uri) * dest,
 	/* [21/50]	         T.path = ""; */
 							dest->absolutePath = URI_FALSE;
 	/* [22/50]	         while (first(A.path) == first(Base.path)) do */
+							/* NOTE: The last segment of one path never matches a
+							 *       non-last segment of the other: reference resolution
+							 *       replaces the last segment of the base path */
 							while ((sourceSeg != NULL) && (baseSeg != NULL)
 									&& !URI_FUNC(CompareRange)(&sourceSeg->text, &baseSeg->text)
-									&& !((sourceSeg->text.first == sourceSeg->text.afterLast)
-										&& ((sourceSeg->next == NULL) != (baseSeg->next == NULL)))) {
+									&& ((sourceSeg->next == NULL) == (baseSeg->next == NULL))) {
 	/* [23/50]	            A.path++; */
 								sourceSeg = sourceSeg->next;
 	/* [24/50]	            Base.path++; */
